@@ -53,11 +53,12 @@ Definition snap_checks (iss acc : Z) (t : tcp) : list Z :=
   let s := SN t in
   (* (a) data or a FIN in flight => the retransmission timer runs *)
   ck 11 (implb' (connected t && negb (sndUna s =? sndNxt s)) (timer_on t)) ++
-  (* (b) data queued, nothing in flight, no timer, room in the congestion window: nothing but a
+  (* (b) data queued, nothing in flight, no timer, room in the congestion window (or a congestion
+         window that can never admit a segment): nothing but a
          segment from the peer can make the sender move.  Behind a zero window this is the known
          missing-persist-timer pattern; in any other situation it is a plain stall. *)
   (if connected t && negb (lenZ (wunsent s) =? 0) && (sndUna s =? sndNxt s) && negb (timer_on t)
-      && (outstanding s <? cwnd s)
+      && ((outstanding s <? cwnd s) || (cwnd s <? 1))
    then match wunsent s with
         | w :: _ => if negb (empty_data w) && (sndWnd s =? 0) then [200] else [12]
         | [] => []
